@@ -306,6 +306,16 @@ def make_symbolic(spec, name, reg, st):
                                 'real')
                 return uf(fname, ar)(*[real(a) for a in args[:ar]])
             return SFunc(call, fname)
+        if tag == 'callable':   # ('callable', result spec): an opaque function; every call
+            from .values import SFunc      # returns a fresh value of that spec (nothing else known)
+            calls = [0]
+
+            def call(st2, *args, **kw):
+                calls[0] += 1
+                return make_symbolic(spec[1], f'{name}()#{calls[0]}', reg, st2)
+            f = SFunc(call, name)
+            f.needs_state = True
+            return f
         if tag == 'record':
             return SObj(spec[1], {f: make_symbolic(t, f'{name}.{f}', reg, st)
                                   for f, t in spec[2].items()})
